@@ -13,6 +13,15 @@ Target vocabulary: theories/PyPrims.v.  Conventions:
   writer functions  f(file, a..)   ->  f a.. : res bytes       (bytes written)
   pure functions    f(a..)         ->  f a.. : res T
 Python ints -> Z, bytes/bytearray/list -> list, bool -> bool.
+
+Second wave (one generated file per source area, table WAVE2 below):
+  str -> list Z (code points); pathlib.Path -> Path.v's ppath (raw segments) with the pathlib
+  operations mapped to the model primitives of theories/Path.v; Optional[int] -> option Z;
+  `return` inside a `for` (the loop state carries `option <return type>` and the loop breaks);
+  truthiness of str/list/int in `if`; module-level constants are inlined by value.
+A refused second-wave function is emitted as a placeholder returning `Err EOther` (so that the
+other generated functions still build); the refusal is in translate_report.json and every check
+that lists the function in GEN_DEPS reports its property as no longer shown.
 """
 import ast
 import hashlib
@@ -44,7 +53,13 @@ WHITELIST = {
 ORDER = ["bits_to_bytes", "write_real_uint64", "write_uint32", "read_real_uint64", "read_uint32",
          "write_uint64", "read_uint64", "write_boolean", "read_boolean"]
 
-COQ_TY = {"int": "Z", "bytes": "bytes", "bool": "bool", "boollist": "list bool"}
+COQ_TY = {"int": "Z", "bytes": "bytes", "bool": "bool", "boollist": "list bool",
+          # second wave
+          "str": "list Z",            # Python str: the list of its code points
+          "path": "ppath",            # pathlib.Path object: Path.v's model (raw segments)
+          "list:str": "list (list Z)",
+          "optint": "option Z",       # Optional[int]
+          "unit": "unit"}
 
 
 def coq_ty(t):
@@ -53,12 +68,49 @@ def coq_ty(t):
     return COQ_TY[t]
 
 
+def str_lit(v):
+    """a Python str constant as the list of its code points"""
+    return "[" + "; ".join(str(ord(c)) for c in v) + "]"
+
+
+# constants of other modules the translated code refers to, with the value the translator assumes
+# (each is compared with CPython by tools/harness/prims.py on every run)
+EXTERNAL_CONSTANTS = {
+    "posixpath.sep": "/",
+}
+
+
+def is_seq(t):
+    return t in ("bytes", "boollist", "str", "path") or t.startswith("list:")
+
+
+# ---------------------------------------------------------------------------------------------
+# second wave: name -> spec; "out" is the generated file (coq/gen/<out>.v)
+WAVE2 = {
+    "remove_relative_path_marker": dict(file="helpers.py", qual="remove_relative_path_marker", kind="pure",
+                                        args={"path": "str"}, ret="str", out="HelpersPath"),
+    "remove_trailing_slash": dict(file="helpers.py", qual="remove_trailing_slash", kind="pure",
+                                  args={"path": "str"}, ret="str", out="HelpersPath"),
+    "canonical_path": dict(file="helpers.py", qual="canonical_path", kind="pure",
+                           args={"target": "path"}, ret="path", out="HelpersPath"),
+    "check_archive_path": dict(file="helpers.py", qual="check_archive_path", kind="pure",
+                               args={"arcname": "str"}, ret="bool", out="HelpersPath"),
+}
+OUT_FILES = {
+    # out -> (source description, Require line)
+    "HelpersPath": ("py7zr/helpers.py", "From P7 Require Import Prelude PyPrims PyStr Path."),
+}
+
+
 class FnTr:
-    def __init__(self, name, node, kind, argtys, retty):
+    def __init__(self, name, node, kind, argtys, retty, module=None, spec=None):
         self.name, self.node, self.kind, self.argtys, self.retty = name, node, kind, argtys, retty
         self.tmp = 0
         self.ty = dict(argtys)  # variable -> type
         self.filevar = None
+        self.module = module    # ast of the module (for module-level constants); None for the first wave
+        self.spec = spec or {}
+        self.loops = []         # stack of enclosing for-loops: dict(ret=bool)
 
     def fresh(self):
         self.tmp += 1
@@ -91,11 +143,18 @@ class FnTr:
                 return [], self.zlit(v), "int"
             if isinstance(v, bytes):
                 return [], "[" + "; ".join(str(b) for b in v) + "]", "bytes"
+            if isinstance(v, str) and self.module is not None:
+                return [], str_lit(v), "str"
             self.refuse(e, "constant")
         if isinstance(e, ast.Name):
             if e.id not in self.ty:
+                c = self.module_constant(e.id)
+                if c is not None:
+                    return self.expr(c)
                 self.refuse(e, "unknown name " + e.id)
             return [], e.id, self.ty[e.id]
+        if isinstance(e, ast.Attribute) and self.module is not None:
+            return self.attribute(e)
         if isinstance(e, ast.UnaryOp):
             c = self.const_int(e)
             if c is not None:
@@ -149,6 +208,80 @@ class FnTr:
             return self.call(e)
         self.refuse(e, "expression")
 
+    # ---------------- second wave helpers ----------------
+    def module_constant(self, name):
+        """the constant expression a module-level `NAME = <int/str/bytes literal>` binds (assigned exactly once)"""
+        if self.module is None:
+            return None
+        found = []
+        for st in ast.walk(self.module):
+            tgts = []
+            if isinstance(st, ast.Assign):
+                tgts = st.targets
+            elif isinstance(st, (ast.AugAssign, ast.AnnAssign)):
+                tgts = [st.target]
+            elif isinstance(st, (ast.Global, ast.Nonlocal)) and name in st.names:
+                return None
+            for t in tgts:
+                for n in ast.walk(t):
+                    if isinstance(n, ast.Name) and n.id == name:
+                        found.append(st)
+        if len(found) != 1 or found[0] not in self.module.body or not isinstance(found[0], ast.Assign):
+            return None
+        v = found[0].value
+        if isinstance(v, ast.Constant) and isinstance(v.value, (int, str, bytes)) and not isinstance(v.value, bool):
+            return v
+        return None
+
+    def dotted(self, e):
+        if isinstance(e, ast.Name):
+            return e.id
+        if isinstance(e, ast.Attribute):
+            b = self.dotted(e.value)
+            return None if b is None else b + "." + e.attr
+        return None
+
+    def attribute(self, e):
+        d = self.dotted(e)
+        if d in EXTERNAL_CONSTANTS and d.split(".")[0] not in self.ty:
+            return [], str_lit(EXTERNAL_CONSTANTS[d]), "str"
+        p, v, t = self.expr(e.value)
+        if t == "path":
+            if e.attr == "parts":
+                return p, "(pp_parts %s)" % v, "list:str"
+            if e.attr == "anchor":
+                return p, "(pp_anchor %s)" % v, "str"
+        self.refuse(e, "attribute %s of %s" % (e.attr, t))
+
+    def truthy(self, e, v, t):
+        if t == "bool":
+            return v
+        if self.module is None:
+            self.refuse(e, "if test type")
+        if is_seq(t):
+            return "(py_nonempty %s)" % v
+        if t == "int":
+            return "(negb (%s =? 0))" % v
+        self.refuse(e, "truth value of " + t)
+
+    def test(self, e):
+        """e in a boolean context (if / while / operand of not, and, or there): (pre-lines, Coq bool)"""
+        if isinstance(e, ast.BoolOp):
+            vals, pre = [], []
+            for x in e.values:
+                p, v = self.test(x)
+                if p and vals:
+                    self.refuse(e, "effect in non-first operand of and/or")
+                pre += p
+                vals.append(v)
+            op = "&&" if isinstance(e.op, ast.And) else "||"
+            return pre, "(" + (" %s " % op).join(vals) + ")"
+        if isinstance(e, ast.UnaryOp) and isinstance(e.op, ast.Not):
+            p, v = self.test(e.operand)
+            return p, "(negb %s)" % v
+        p, v, t = self.expr(e)
+        return p, self.truthy(e, v, t)
+
     def binop(self, e):
         pl, l, tl = self.expr(e.left)
         pr, r, tr = self.expr(e.right)
@@ -201,6 +334,9 @@ class FnTr:
         if tl == "bytes" and tr == "bytes" and isinstance(op, (ast.Eq, ast.NotEq)):
             v = "(bytes_eqb %s %s)" % (l, r)
             return pre, (v if isinstance(op, ast.Eq) else "(negb %s)" % v), "bool"
+        if tl == "str" and tr == "str" and isinstance(op, (ast.Eq, ast.NotEq)):
+            v = "(py_str_eqb %s %s)" % (l, r)
+            return pre, (v if isinstance(op, ast.Eq) else "(negb %s)" % v), "bool"
         self.refuse(e, "compare %s on %s,%s" % (type(op).__name__, tl, tr))
 
     def subscript(self, e):
@@ -227,7 +363,7 @@ class FnTr:
                         self.refuse(e, "slice bound type")
                     pre += p
                     bounds.append("(Some %s)" % v)
-            if not (tb == "bytes" or tb.startswith("list:") or tb == "boollist"):
+            if not (tb == "bytes" or tb.startswith("list:") or tb == "boollist" or tb == "str"):
                 self.refuse(e, "slice of " + tb)
             return pre, "(py_slice %s %s %s)" % (b, bounds[0], bounds[1]), tb
         pi, i, ti = self.expr(s)
@@ -239,6 +375,9 @@ class FnTr:
         if tb == "boollist":
             t = self.fresh()
             return pb + pi + ["do %s <- py_index %s %s;" % (t, b, i)], t, "bool"
+        if tb == "list:str":
+            t = self.fresh()
+            return pb + pi + ["do %s <- py_index %s %s;" % (t, b, i)], t, "str"
         self.refuse(e, "subscript of " + tb)
 
     def call(self, e):
@@ -281,6 +420,8 @@ class FnTr:
                 if t != "int":
                     self.refuse(e, "bit_length type")
                 return p, "(py_bit_length %s)" % v, "int"
+            if self.module is not None:
+                return self.call2(e)
             self.refuse(e, "method " + f.attr)
         if not isinstance(f, ast.Name):
             self.refuse(e, "call target")
@@ -360,6 +501,37 @@ class FnTr:
             return pre + ["do %s <- %s %s;" % (t1, fn, " ".join(vs))], t1, retty
         self.refuse(e, "call of " + fn)
 
+    def call2(self, e):
+        """second wave: method calls"""
+        f, args = e.func, e.args
+        if e.keywords:
+            self.refuse(e, "keyword arguments")
+        d = self.dotted(f)
+        if d == "pathlib.Path" and "pathlib" not in self.ty:
+            # pathlib.Path(s) / pathlib.Path(*segments): the path object whose raw segments are the arguments
+            if len(args) == 1 and isinstance(args[0], ast.Starred):
+                p, v, t = self.expr(args[0].value)
+                if t != "list:str":
+                    self.refuse(e, "pathlib.Path(*x) argument type " + t)
+                return p, "(%s : ppath)" % v, "path"
+            pre, vs = [], []
+            for a in args:
+                p, v, t = self.expr(a)
+                if t != "str":
+                    self.refuse(e, "pathlib.Path argument type " + t)
+                pre += p
+                vs.append(v)
+            return pre, "([%s] : ppath)" % "; ".join(vs), "path"
+        p, v, t = self.expr(f.value)
+        if t == "str" and f.attr in ("startswith", "endswith") and len(args) == 1:
+            pa, a, ta = self.expr(args[0])
+            if ta != "str":
+                self.refuse(e, "%s argument type %s" % (f.attr, ta))
+            return p + pa, "(py_%s %s %s)" % (f.attr, v, a), "bool"
+        if t == "path" and f.attr == "is_absolute" and not args:
+            return p, "(pp_is_absolute %s)" % v, "bool"
+        self.refuse(e, "method %s of %s" % (f.attr, t))
+
     # ---------------- statements ----------------
     def assigned(self, stmts):
         """names assigned anywhere in stmts (in order of first appearance)"""
@@ -380,7 +552,7 @@ class FnTr:
                             add(n.id)
             elif isinstance(st, ast.Expr) and isinstance(st.value, ast.Call):
                 c = st.value
-                if isinstance(c.func, ast.Attribute) and c.func.attr in ("append",) and isinstance(c.func.value, ast.Name):
+                if isinstance(c.func, ast.Attribute) and c.func.attr in ("append", "pop") and isinstance(c.func.value, ast.Name):
                     add(c.func.value.id)
                 if isinstance(c.func, ast.Attribute) and self.is_file(c.func.value):
                     add("inp" if self.kind == "reader" else "out")
@@ -392,6 +564,9 @@ class FnTr:
         return out
 
     def ret(self, val):
+        if self.loops:
+            self.loops[-1]["ret"] = True
+            return ["RETURN " + val]
         if self.kind == "reader":
             return ["Ok (%s, inp)" % val]
         if self.kind == "writer":
@@ -413,13 +588,25 @@ class FnTr:
             if st.value is None:
                 return self.ret("tt")
             p, v, t = self.expr(st.value)
+            if self.module is not None and t != self.retty:
+                self.refuse(st, "return of %s in a function returning %s" % (t, self.retty))
             return p + self.ret(v)
+        if isinstance(st, ast.AnnAssign) and self.module is not None:
+            # `x: list[str] = []`
+            ann = ast.unparse(st.annotation).replace("List", "list")
+            if not (isinstance(st.target, ast.Name) and ann == "list[str]" and isinstance(st.value, ast.List)
+                    and not st.value.elts):
+                self.refuse(st, "annotated assignment")
+            self.ty[st.target.id] = "list:str"
+            return ["let %s : list (list Z) := [] in" % st.target.id] + cont()
         if isinstance(st, ast.Assign):
             if len(st.targets) != 1:
                 self.refuse(st, "multi-target assign")
             tg = st.targets[0]
             p, v, t = self.expr(st.value)
             if isinstance(tg, ast.Name):
+                if self.module is not None and isinstance(st.value, ast.List) and not st.value.elts:
+                    self.refuse(st, "empty list literal without annotation")
                 self.ty[tg.id] = "boollist" if t == "list:bool" else t
                 if t == "list:int" and not st.value.elts if isinstance(st.value, ast.List) else False:
                     self.ty[tg.id] = "boollist"  # `result = []` in read_boolean
@@ -460,15 +647,19 @@ class FnTr:
                 if c.func.attr == "append" and isinstance(c.func.value, ast.Name) and len(c.args) == 1:
                     n = c.func.value.id
                     p, v, t = self.expr(c.args[0])
+                    if self.module is not None and self.ty.get(n) != "list:" + t:
+                        self.refuse(st, "append of %s to %s" % (t, self.ty.get(n)))
                     return p + ["let %s := %s ++ [%s] in" % (n, n, v)] + cont()
+                if c.func.attr == "pop" and isinstance(c.func.value, ast.Name) and not c.args and not c.keywords \
+                        and self.module is not None and self.ty.get(c.func.value.id, "").startswith("list:"):
+                    n = c.func.value.id   # the popped element is discarded (expression statement)
+                    return ["do %s <- py_pop_ %s;" % (n, n)] + cont()
             if isinstance(c, ast.Call):
                 p, v, t = self.expr(c)
                 return p + cont()
             self.refuse(st, "expression statement")
         if isinstance(st, ast.If):
-            p, c, t = self.expr(st.test)
-            if t != "bool":
-                self.refuse(st, "if test type")
+            p, c = self.test(st.test)
             # the continuation is duplicated into both branches (functions are small)
             saved = dict(self.ty)
             a = self.block(st.body, cont)
@@ -529,27 +720,52 @@ class FnTr:
             pat = "'(%s)" % ", ".join(x.id for x in tg.elts)
         else:
             self.refuse(st, "loop target")
-        for n in ast.walk(ast.Module(body=st.body, type_ignores=[])):
-            if isinstance(n, ast.Return):
-                self.refuse(n, "return inside loop")
+        has_ret = any(isinstance(n, ast.Return) for n in ast.walk(ast.Module(body=st.body, type_ignores=[])))
+        if has_ret and (self.module is None or self.kind != "pure"):
+            self.refuse(st, "return inside loop")
         state = [v for v in self.assigned(st.body) if v in self.ty or v in ("inp", "out")]
+        if has_ret:
+            # `return v` inside the loop: the state carries rv : option <return type>; the loop breaks with
+            # rv = Some v, and the code after the loop returns it
+            if "rv" in self.ty or "rv" in state:
+                self.refuse(st, "variable named rv in a function with return inside a loop")
+            state = state + ["rv"]
         if not state:
             self.refuse(st, "loop without state")
         tup = state[0] if len(state) == 1 else "(%s)" % ", ".join(state)
         spat = state[0] if len(state) == 1 else "'(%s)" % ", ".join(state)
+        self.loops.append({"ret": False})
         body = self.block(st.body, lambda: ["CONTINUE"])
-        body = [("Ok (%s, true)" % tup) if x.strip() == "BREAK" else
-                ("Ok (%s, false)" % tup) if x.strip() == "CONTINUE" else x for x in body]
-        body = [x if x.strip() not in ("Ok (%s, true)" % tup, "Ok (%s, false)" % tup) else
-                x[: len(x) - len(x.lstrip())] + x.strip() for x in body]
+        self.loops.pop()
+        rtup = None
+        if has_ret:
+            rtup = "(%s)" % ", ".join(state[:-1] + ["Some RV"]) if len(state) > 1 else "Some RV"
+
+        def marker(x):
+            y = x.strip()
+            if y == "BREAK":
+                return "Ok (%s, true)" % tup
+            if y == "CONTINUE":
+                return "Ok (%s, false)" % tup
+            if y.startswith("RETURN ") and has_ret:
+                return "Ok (%s, true)" % rtup.replace("RV", y[7:])
+            return x
+        body = [marker(x) for x in body]
         st_name = self.fresh() + "s"
+        init = tup
+        if has_ret:
+            init = "(%s)" % ", ".join(state[:-1] + ["@None %s" % coq_ty(self.retty)]) if len(state) > 1 \
+                else "(@None %s)" % coq_ty(self.retty)
         lines = pre + ["do %s <- for_m %s (fun %s %s =>" % (st_name, xs, pat, spat)]
         lines += ["    " + x for x in body]
-        lines[-1] += ") %s;" % tup
+        lines[-1] += ") %s;" % init
         if len(state) == 1:
             lines += ["let %s := %s in" % (state[0], st_name)]
         else:
             lines += ["let '(%s) := %s in" % (", ".join(state), st_name)]
+        if has_ret:
+            return lines + ["match rv with", "| Some r =>"] + ["  " + x for x in self.ret("r")] + ["| None =>"] + \
+                ["  " + x for x in cont()] + ["end"]
         return lines + cont()
 
     def translate(self):
@@ -566,10 +782,12 @@ class FnTr:
         elif self.kind == "writer":
             head = "Definition %s %s : res bytes :=\n  let out : bytes := [] in" % (self.name, sig)
         else:
-            head = "Definition %s %s : res %s :=" % (self.name, sig, coq_ty(self.retty))
+            rt = coq_ty(self.retty)
+            head = "Definition %s %s : res %s :=" % (self.spec.get("coqname", self.name), sig,
+                                                     "(%s)" % rt if " " in rt and not rt.startswith("(") else rt)
         body = self.block(node.body, lambda: self.ret("tt"))
         for x in body:
-            if x.strip() in ("BREAK", "CONTINUE"):
+            if x.strip() in ("BREAK", "CONTINUE") or x.strip().startswith("RETURN "):
                 self.refuse(node, "break/continue outside loop")
         return head + "\n" + "\n".join("  " + x for x in body) + "."
 
@@ -599,20 +817,41 @@ Fixpoint bytes_eqb (a b : bytes) : bool :=
 """
 
 
+HEADER2 = """(* GENERATED by tools/translate.py from %s -- do not edit. *)
+%s
+Open Scope Z_scope.
+"""
+
+
+def write_if_changed(path, text):
+    old = open(path).read() if os.path.exists(path) else None
+    if old != text:
+        open(path, "w").write(text)
+
+
+def placeholder(name, spec):
+    """definition emitted for a refused second-wave function: same signature, always Err"""
+    sig = " ".join("(%s : %s)" % (p, coq_ty(t)) for p, t in spec["args"].items())
+    return "Definition %s %s : res %s :=\n  Err EOther." % (spec.get("coqname", name), sig, coq_ty(spec["ret"]))
+
+
 def main():
     repo, outdir = sys.argv[1], sys.argv[2]
     os.makedirs(outdir, exist_ok=True)
     report = {"translated": {}, "refused": {}}
     trees, srcs = {}, {}
+
+    def load(fname):
+        if fname not in trees:
+            srcs[fname] = open(os.path.join(repo, "py7zr", fname), encoding="utf-8").read()
+            trees[fname] = ast.parse(srcs[fname])
+        return trees[fname]
+
     chunks = []
     for name in ORDER:
         fname, qual, kind, argtys, retty = WHITELIST[name]
-        path = os.path.join(repo, "py7zr", fname)
-        if fname not in trees:
-            srcs[fname] = open(path, encoding="utf-8").read()
-            trees[fname] = ast.parse(srcs[fname])
-        node = find_function(trees[fname], qual)
         try:
+            node = find_function(load(fname), qual)
             if node is None:
                 raise Refused("%s: not found in %s" % (qual, fname))
             seg = ast.get_source_segment(srcs[fname], node)
@@ -622,15 +861,41 @@ def main():
                 "source": "%s:%d" % (fname, node.lineno),
                 "source_sha256": hashlib.sha256(seg.encode()).hexdigest(),
                 "gallina_sha256": hashlib.sha256(text.encode()).hexdigest(),
+                "file": "ArchiveinfoPrims.v",
             }
-        except Refused as r:
+        except (Refused, OSError, SyntaxError) as r:
             report["refused"][name] = str(r)
             chunks.append("(* REFUSED %s: %s *)\n" % (name, str(r).replace("*)", "* )")))
     text = HEADER % "py7zr/archiveinfo.py" + "\n" + "\n".join(chunks)
-    out = os.path.join(outdir, "ArchiveinfoPrims.v")
-    old = open(out).read() if os.path.exists(out) else None
-    if old != text:
-        open(out, "w").write(text)
+    write_if_changed(os.path.join(outdir, "ArchiveinfoPrims.v"), text)
+
+    # ---- second wave: one file per source area
+    for out, (srcdesc, requires) in OUT_FILES.items():
+        chunks = []
+        for name, spec in WAVE2.items():
+            if spec["out"] != out:
+                continue
+            fname, qual = spec["file"], spec["qual"]
+            try:
+                tree = load(fname)
+                node = find_function(tree, qual)
+                if node is None:
+                    raise Refused("%s: not found in %s" % (qual, fname))
+                seg = ast.get_source_segment(srcs[fname], node)
+                tr = FnTr(name, node, spec["kind"], spec["args"], spec["ret"], module=tree, spec=spec)
+                text = tr.translate()
+                chunks.append("(* %s:%d %s *)\n%s\n" % (fname, node.lineno, qual, text))
+                report["translated"][name] = {
+                    "source": "%s:%d" % (fname, node.lineno),
+                    "source_sha256": hashlib.sha256(seg.encode()).hexdigest(),
+                    "gallina_sha256": hashlib.sha256(text.encode()).hexdigest(),
+                    "file": out + ".v",
+                }
+            except (Refused, OSError, SyntaxError) as r:
+                report["refused"][name] = str(r)
+                chunks.append("(* REFUSED %s: %s *)\n%s\n" % (name, str(r).replace("*)", "* )"), placeholder(name, spec)))
+        text = HEADER2 % (srcdesc, requires) + "\n" + "\n".join(chunks)
+        write_if_changed(os.path.join(outdir, out + ".v"), text)
     json.dump(report, open(os.path.join(outdir, "translate_report.json"), "w"), indent=1, sort_keys=True)
     print(json.dumps({"translated": sorted(report["translated"]), "refused": report["refused"]}))
     return 0
